@@ -453,7 +453,16 @@ pub fn gen_scenario(t: &mut Tape, p: &Profile) -> Scenario {
         } else {
             default_source(v6)
         },
-        target: default_target(v6),
+        // the addresses feed every pseudo-header checksum: all-ones and sparse patterns too
+        target: match (t.weighted(&[70, 10, 10, 10]), v6) {
+            (0, _) => default_target(v6),
+            (1, false) => IpAddr::V4(Ipv4Addr::new(255, 255, 255, 253)),
+            (2, false) => IpAddr::V4(Ipv4Addr::new(128, 0, 0, 1)),
+            (_, false) => IpAddr::V4(Ipv4Addr::new(198, 51, 100, 255)),
+            (1, true) => IpAddr::V6(Ipv6Addr::new(0xffff, 0xffff, 0xffff, 0xffff, 0xffff, 0xffff, 0xffff, 0xfffd)),
+            (2, true) => IpAddr::V6(Ipv6Addr::new(0x2001, 0xdb8, 0, 0, 0, 0, 0, 1)),
+            (_, true) => IpAddr::V6(Ipv6Addr::new(0x2001, 0xdb8, 0xffff, 0xffff, 0, 0, 0xffff, 0xff00)),
+        },
     };
     let mut tracer = tracer;
     if !tracer.explicit_source && t.chance(150) {
